@@ -39,11 +39,11 @@ def SLICES(prop):
                 constants=dict(Rng=3, MaxN=4, Bigs=True, Forms='all'), invariants=['LawMech', 'LawIndex', 'Emit'])
 
 
-def simple_sel(prop, laws=(), extra=()):
+def simple_sel(prop, laws=(), extra=(), quick_scope='pairs'):
     def f(tier):
         inv = list(laws) + ['Emit']
         if tier == 'quick':
-            return [sel('pairs', prop, SEL(2, 'pairs', 'small'), inv)] + [e() if callable(e) else e for e in extra]
+            return [sel(quick_scope, prop, SEL(2, quick_scope, 'small'), inv)] + [e() if callable(e) else e for e in extra]
         return [sel('pairs', prop, SEL(2, 'pairs', 'full'), inv, timeout=1800),
                 sel('triples', prop, SEL(3, 'triples', 'full'), inv, timeout=3600)] + [e() if callable(e) else e for e in extra]
     return f
@@ -218,6 +218,41 @@ def c20(tier):
     return [st('two-steps-all-types', 2, 'all', 'all', 7200)]
 
 
+def filt(label, props, members, depth, kinds, roots, timeout=1800):
+    return dict(kind='gen', module='Gen_Filter', label=label, props=props, timeout=timeout, check_count=False,
+                constants=dict(MaxMembers=members, QDepth=depth, Kinds=kinds, RootSet=roots),
+                invariants=['LawBoolean', 'LawNe', 'LawMirror', 'LawLe', 'LawTypeStrict', 'Emit'])
+
+
+def filterproto(depth, timeout=1800):
+    return dict(kind='tlc', module='FilterProto', label='filterproto-depth%d' % depth, constants=dict(AsCoded=False, PDepth=depth),
+                invariants=['NoProtectedWrite', 'Refines'], timeout=timeout)
+
+
+def filterproto_mutant():
+    """sensitivity: with the protective mechanisms switched off the model MUST violate NoProtectedWrite"""
+    def fn(pid, tier, sdir, harness, known):
+        st = vlib.run_tlc_only(sdir, 'FilterProto', dict(AsCoded=True, PDepth=1), ['NoProtectedWrite'], 600, 'filterproto-as-coded')
+        txt = open(st['log'], errors='replace').read()
+        if 'Invariant NoProtectedWrite is violated' not in txt:
+            raise Infra('FilterProto with AsCoded=TRUE no longer violates NoProtectedWrite: the model lost its sensitivity')
+        return dict(tlc_runs=[{k: st[k] for k in ('label', 'cmd', 'generated', 'distinct', 'wall_s')}], counters={'mutant-model-killed': 1}, exhaustive=True)
+    return dict(kind='custom', fn=fn)
+
+
+def c09(tier):
+    if tier == 'quick':
+        return [filterproto(1), filt('atoms', 'C09', 2, 1, 'both', 'all'), filt('pairs', 'C09', 2, 2, 'arr', 'two')]
+    return [filterproto(2, 3600), filterproto_mutant(), filt('atoms', 'C09', 3, 1, 'both', 'all', 7200), filt('pairs', 'C09', 2, 2, 'both', 'all', 7200),
+            filt('triples', 'C09', 2, 3, 'arr', 'two', 7200)]
+
+
+def c10(tier):
+    if tier == 'quick':
+        return [filt('atoms', 'C10', 2, 1, 'both', 'all'), filt('pairs', 'C10', 1, 2, 'both', 'all')]
+    return [filt('atoms', 'C10', 3, 1, 'both', 'all', 7200), filt('pairs', 'C10', 2, 2, 'both', 'all', 7200)]
+
+
 def c02(tier):
     cn = dict(kind='tlc', module='CmpNormalize', label='cmp-normalize-terminates', constants=dict(AsCoded=False),
               invariants=['BuiltRight', 'AtMostOneSwap'], properties=['Terminates'], timeout=120, workers=1)
@@ -237,11 +272,13 @@ def c17(tier):
 
 
 CHECKS = {
+    'C09': dict(stages=c09, level='model_checking'),
+    'C10': dict(stages=c10, level='model_checking'),
     'C20': dict(stages=c20, level='model_checking'),
     'C01': dict(stages=c01, level='model_checking'),
     'C02': dict(stages=c02, level='model_checking'),
     'C03': dict(stages=simple_sel('C03', ['LawFailsIffEmpty'], extra=[lambda: SLICES('C03'), lambda: traceB_eval(4000, 200000, 'C03', EVAL_ATTR)]), level='model_checking'),
-    'C04': dict(stages=simple_sel('C04', extra=[lambda: traceB_eval(4000, 200000, 'C04', EVAL_ATTR)]), level='model_checking'),
+    'C04': dict(stages=simple_sel('C04', extra=[lambda: filterproto(1), lambda: filt('filters', 'C04', 2, 2, 'arr', 'two'), lambda: traceB_eval(3000, 200000, 'C04', EVAL_ATTR)], quick_scope='triples'), level='model_checking'),
     'C07': dict(stages=c07, level='model_checking'),
     'C08': dict(stages=simple_sel('C08', ['LawCompose']), level='model_checking'),
     'C11': dict(stages=c11, level='model_checking'),
